@@ -39,7 +39,7 @@ def gen(rng, tier):
             yield _gen_composed(rng, i)
 
 
-_IPS = ["10.0.0.1", "192.0.2.7", "203.0.113.9", "2001:db8::1", "198.51.100.23", "evil"]
+_IPS = ["10.0.0.1", "192.0.2.7", "203.0.113.9", "2001:db8::1", "198.51.100.23", "evil", "[2001:db8:cafe::17]:4711", "192.0.2.43:47011"]
 _HOSTS = ["example.com", "internal.lan:8080", "a.b.c", "evil.example"]
 
 
@@ -55,7 +55,7 @@ def _gen_proxy(rng, i):
     sp = rng.choice(["", " ", "  "])
     other = rng.choice([0, 0, 0, 1, 2, 5])
     return {"family": "proxy." + mode + (".other-family-present" if other else ""), "kind": "proxy", "mode": mode, "hops": hops, "elems": elems, "split": split, "sp": sp,
-            "other_family": other,
+            "other_family": other, "style": rng.choice(["plain", "plain", "quoted", "caps", "capitalised"]) if mode == "modern" else "plain",
             "scope_type": rng.choice(["http", "websocket"]), "prefix": [{"for": "6.6.6.6", "proto": "https", "host": "attacker.example", "has": [True, True, True]}
                                                                         for _ in range(rng.choice([1, 2]))]}
 
@@ -74,12 +74,17 @@ def _proxy_headers(case, elems):
             vals = []
             for e in g:
                 parts = []
+                # RFC 7239 4: parameter names are case-insensitive, a value is a token or a quoted-string (an IPv6 address or a
+                # host with a port cannot be written any other way) - the value is what is inside the quotes
+                st = case.get("style", "plain")
+                q = (lambda v: '"%s"' % v) if st == "quoted" else (lambda v: v)
+                nm = (lambda x: x.upper() if st == "caps" else x.capitalize() if st == "capitalised" else x)
                 if e["has"][0]:
-                    parts.append("for=%s" % e["for"])
+                    parts.append("%s=%s" % (nm("for"), q(e["for"])))
                 if e["has"][1]:
-                    parts.append("proto=%s" % e["proto"])
+                    parts.append("%s=%s" % (nm("proto"), q(e["proto"])))
                 if e["has"][2]:
-                    parts.append("host=%s" % e["host"])
+                    parts.append("%s=%s" % (nm("host"), q(e["host"])))
                 vals.append(";".join(parts) if parts else "by=x")
             hs.append((b"forwarded", ("," + sp).join(vals).encode()))
     else:
